@@ -8,6 +8,9 @@ TRUSTED = ['expected expanded relations are computed from the generated document
 
 def tweak(rng, u):
     import gendoc
+    if rng.random() < 0.15:
+        u['resources'], u['configs'] = dbfam.crafted_inferred_chain(rng)
+        return
     names = [n for n, _ in u['resources']]
     if 'ba:2' in names and 'bb:1' in names and rng.random() < 0.8:
         # two selected lexicons that depend on DIFFERENT versions of one id (bb:1 -> ba:1, bc:1 -> ba:2, sometimes a
